@@ -257,6 +257,61 @@ fn run_alpha<A: Alphabet>(alpha: &'static str, ctx: &mut Ctx, rep: &mut Report, 
             }
         }
     }
+    // ---- the same invalid byte in every 16/32-byte block: per-lane error accumulators over many blocks -----
+    rep.space(
+        "repeated",
+        "texts in which EVERY 32-byte block holds an invalid byte in the same lane (soft-masked chunks, line feeds of 31-letter lines): alphabet x 6 pipelines + API arms x block counts {255,256,257,512,513} x lane in {0,7,8,15,16,24,31} (thorough: every lane) x invalid byte {a, LF} + a valid tail of 0 or 5 letters; \
+         plus all-lower-case texts of 8192, 8193 and 16384 bytes; oracle: rejected, naming the first offending byte",
+    );
+    {
+        let lanes: Vec<usize> = if ctx.quick() { vec![0, 7, 8, 15, 16, 24, 31] } else { (0..32).collect() };
+        for &blocks in &[255usize, 256, 257, 512, 513] {
+            for &lane in &lanes {
+                let idx = *base;
+                *base += 1;
+                if !ctx.mine(idx) {
+                    continue;
+                }
+                for &bad in &[b'a', b'\n'] {
+                    for &tail in &[0usize, 5] {
+                        let len = blocks * 32 + tail;
+                        let mut text = background(lt, len, 0);
+                        for b in 0..blocks {
+                            text[b * 32 + lane] = bad;
+                        }
+                        for cfg in cfgs::ALL_ECFGS {
+                            rep.eval_distinct(true);
+                            if let Err((sig, msg)) = check_one::<A>(cfg, &text) {
+                                rep.violation(format!("C05 {} {} repeated {}", alpha, cfg.name(), sig), msg, || case_json(alpha, cfg.name(), &text));
+                            }
+                        }
+                        for arm in cfgs::FORCED {
+                            rep.eval_distinct(true);
+                            if let Err((sig, msg)) = check_api::<A>(arm, &text) {
+                                rep.violation(format!("C05 {} api[{}] repeated {}", alpha, cfgs::arm_name(arm), sig), msg, || {
+                                    case_json(alpha, &format!("api[{}]", cfgs::arm_name(arm)), &text)
+                                });
+                            }
+                        }
+                    }
+                }
+            }
+        }
+        for &len in &[8192usize, 8193, 16384] {
+            let idx = *base;
+            *base += 1;
+            if !ctx.mine(idx) {
+                continue;
+            }
+            let text: Vec<u8> = background(lt, len, 0).iter().map(|b| b.to_ascii_lowercase()).collect();
+            for cfg in cfgs::ALL_ECFGS {
+                rep.eval_distinct(true);
+                if let Err((sig, msg)) = check_one::<A>(cfg, &text) {
+                    rep.violation(format!("C05 {} {} repeated {}", alpha, cfg.name(), sig), msg, || case_json(alpha, cfg.name(), &text));
+                }
+            }
+        }
+    }
     // ---- multi-byte UTF-8 text through from_str ------------------------------------------------
     rep.space(
         "utf8",
